@@ -16,6 +16,7 @@ import (
 	"context"
 	"errors"
 	"fmt"
+	"iter"
 	"reflect"
 	"strings"
 	"time"
@@ -170,7 +171,66 @@ type outcome struct {
 
 type stuck struct{}
 
+// refRun is the reference interpreter run as a coroutine: it stops at every callback it expects
+// and continues when it is fed that callback's answer (no re-simulation from scratch).
+type refRun struct {
+	next    func() (call, bool)
+	stop    func()
+	expect  call
+	waiting bool // expect is valid: the reference waits for this callback's answer
+	over    bool
+	out     outcome
+	feedAns answer
+}
+
+type refStop struct{}
+
+func startRef(root *spec, store *flyt.SharedStore) *refRun {
+	r := &refRun{}
+	seq := func(yield func(call) bool) {
+		s := &sim{visits: map[*spec]int{}, store: store}
+		s.askFn = func(c call) answer {
+			if !yield(c) {
+				panic(refStop{})
+			}
+			s.pos++
+			return r.feedAns
+		}
+		defer func() {
+			if x := recover(); x != nil {
+				if _, ok := x.(refStop); !ok {
+					panic(x)
+				}
+			}
+		}()
+		a, e := s.run(root)
+		r.out = outcome{done: true, action: a, err: e}
+	}
+	r.next, r.stop = iter.Pull(seq)
+	r.advance()
+	return r
+}
+
+func (r *refRun) advance() {
+	c, ok := r.next()
+	if !ok {
+		r.waiting, r.over = false, true
+		return
+	}
+	r.expect, r.waiting = c, true
+}
+
+// feed hands the reference the answer of the callback it was waiting for.
+func (r *refRun) feed(a answer) {
+	if r.over {
+		return
+	}
+	r.feedAns = a
+	r.advance()
+}
+
 type sim struct {
+	askFn   func(c call) answer
 	answers []answer
 	pos     int
 	trace   []call
@@ -180,7 +240,9 @@ type sim struct {
 }
 
 func (s *sim) ask(c call) answer {
-	s.trace = append(s.trace, c)
+	if s.askFn != nil {
+		return s.askFn(c)
+	}
 	if s.pos >= len(s.answers) {
 		s.next = c
 		panic(stuck{})
@@ -324,13 +386,24 @@ type H struct {
 	noRefCheck     bool
 	sawCtx         bool
 	runNo          int
+	ref            *refRun
 	maxCalls       int
 	hist           []string
 	outcomeTag     string
 }
 
 func newH(root *spec) *H {
-	return &H{root: root, store: flyt.NewSharedStore(), ctx: context.Background(), nodes: map[*spec]flyt.Node{}, visits: map[*spec]int{}}
+	h := &H{root: root, store: flyt.NewSharedStore(), ctx: context.Background(), nodes: map[*spec]flyt.Node{}, visits: map[*spec]int{}}
+	core.AtEnd(h.closeRef)
+	return h
+}
+
+// closeRef releases the reference coroutine (if it is still waiting for a callback).
+func (h *H) closeRef() {
+	if h.ref != nil {
+		h.ref.stop()
+		h.ref = nil
+	}
 }
 
 // on is called by every scripted node callback.
@@ -348,18 +421,23 @@ func (h *H) on(c call) answer {
 		core.Problem("the run does not terminate: more than %d callbacks (last: %s)", limit, c)
 		panic("harness: runaway execution stopped")
 	}
-	core.Logf("call %s prep=%s exec=%s err=%v", c, descVal(c.prepVal), descVal(c.execVal), c.err)
+	core.Logf("call %v prep=%v exec=%v err=%v", lazyCall{c.node, c.visit, c.ph, c.attempt}, lazyDesc{c.prepVal}, lazyDesc{c.execVal}, c.err)
 	if h.preCall != nil {
 		h.preCall(h, c)
 	}
 	if !h.noRefCheck && !h.diverged {
-		s, _, done := simulate(h.root, h.store, h.answers)
-		if done {
+		if h.ref == nil {
+			h.ref = startRef(h.root, h.store)
+			if len(h.answers) > 0 {
+				panic("harness: reference started late")
+			}
+		}
+		if h.ref.over {
 			core.Problem("callback %s invoked although the reference run is already over (after %d callbacks)", c, len(h.answers))
-		} else if h.allowDeviation != nil && !sameCall(s.next, c) && h.allowDeviation(h, s.next, c) {
+		} else if h.allowDeviation != nil && !sameCall(h.ref.expect, c) && h.allowDeviation(h, h.ref.expect, c) {
 			h.diverged = true
 		} else {
-			h.compare(s.next, c)
+			h.compare(h.ref.expect, c)
 		}
 	}
 	if h.onCall != nil {
@@ -368,7 +446,10 @@ func (h *H) on(c call) answer {
 	m := h.menu(h, c)
 	a := m[core.Choose(len(m))]
 	h.answers = append(h.answers, a)
-	core.Logf("  answer val=%s err=%v action=%q", descVal(a.val), a.err, a.action)
+	if h.ref != nil && !h.diverged {
+		h.ref.feed(a)
+	}
+	core.Logf("  answer val=%v err=%v action=%q", lazyDesc{a.val}, a.err, a.action)
 	return a
 }
 
@@ -754,6 +835,7 @@ func (h *H) countAction(a flyt.Action) int {
 
 // nextRun starts another run on the same node objects.
 func (h *H) nextRun() {
+	h.closeRef()
 	h.hist = append(h.hist, h.traceString())
 	h.answers, h.calls = nil, nil
 	h.visits = map[*spec]int{}
@@ -762,4 +844,20 @@ func (h *H) nextRun() {
 
 func sameCall(exp, got call) bool {
 	return exp.node == got.node && exp.ph == got.ph && exp.visit == got.visit && (exp.ph != pExec || exp.attempt == got.attempt)
+}
+
+// lazyDesc / lazyCall format only when the log is actually rendered.
+type lazyDesc struct{ v any }
+
+func (l lazyDesc) String() string { return descVal(l.v) }
+
+type lazyCall struct {
+	node    *spec
+	visit   int
+	ph      phase
+	attempt int
+}
+
+func (l lazyCall) String() string {
+	return call{node: l.node, visit: l.visit, ph: l.ph, attempt: l.attempt}.String()
 }
